@@ -5,10 +5,12 @@ from props import pm_common as pm
 
 LEVEL = "proof"
 MANIFEST = dict(
-    cat="proof", tech="Coq-verified checkers (canonical pairing uniqueness) applied to the implementation's exposed state after every operation",
+    cat="proof", tech="Coq: pairing uniqueness + reduction-loop invariant + verified checkers, applied to the implementation's exposed state after every operation (R compared exactly with the algorithm model)",
     text="Coq theorems, for every prime p and every size: the pivot pairing of a boundary matrix is unique over all reduced matrices reachable "
          "by upper-triangular column operations (C05_pairing_unique), and the executable checker check_any only accepts such decompositions "
-         "(C05_check_RU_sound), so every accepted state exposes the certified canonical barcode (C05_certified_lows_canonical). The C++ is tied "
+         "(C05_check_RU_sound), so every accepted state exposes the certified canonical barcode (C05_certified_lows_canonical); the insertion "
+         "loop itself is modelled (C05_ru_insert_inv: each step keeps the decomposition and lowers the low, the loop is total and leaves the "
+         "first j+1 columns reduced) and, as long as no swap happened, the implementation's R is compared exactly with the model's. The C++ is tied "
          "by running, for a grid of Matrix<Options> instantiations (9 column types x boundary/RU/chain x 3 indexings x row access x removable x "
          "Z2/Zp), random filtered cell complexes (simplicial, cubical, CW with torsion) through insert_boundary/remove_last histories and "
          "validating R, U / the chain basis, pivots, dimensions and the barcode with the extracted checkers after every step.",
